@@ -33,6 +33,7 @@ import (
 	"github.com/mr-tron/base58"
 	"github.com/nuts-foundation/nuts-node/core/verifhook"
 	"github.com/nuts-foundation/nuts-node/discovery"
+	"github.com/nuts-foundation/nuts-node/http/client"
 	"github.com/nuts-foundation/nuts-node/storage"
 	"gorm.io/gorm"
 	"verif/lib/ev"
@@ -71,6 +72,7 @@ func newKeyHolder() *iamflow.Holder {
 }
 
 type credOpts struct {
+	issuer     *iamflow.Holder // default: the world's did:jwk issuer
 	exp        time.Time
 	typ        string // default NutsOrganizationCredential
 	statusList string // URL of a status list; index statusIdx
@@ -91,8 +93,16 @@ type vpSpec struct {
 
 type world struct {
 	id      int
-	svc     string // the service under test (restricted to did:jwk)
+	svc     string // the service under test (restricted to did:jwk and did:web)
 	open    string // a second, unrestricted service on the same server
+	multi   string // a third service whose definition asks for three credentials (c16_multi_test.go)
+	web     *webHost
+	faults  []*entry // planted entries that depend on a hosted did:web document, in planting order
+	openBad map[string]string
+	// the third service: latest accepted presentation per subject, refused presentations, position in the sweep
+	multiCur      map[string]string
+	multiRejected map[string]string
+	multiIdx      int
 	t       *testing.T
 	r       *ev.Run
 	s, c    *node.Node
@@ -138,11 +148,15 @@ func (w *world) mkCred(subjectDID string, o credOpts) json.RawMessage {
 		vcm["credentialStatus"] = map[string]any{"id": fmt.Sprintf("%s#%d", o.statusList, o.statusIdx), "type": "StatusList2021Entry", "statusPurpose": "revocation",
 			"statusListIndex": strconv.Itoa(o.statusIdx), "statusListCredential": o.statusList}
 	}
-	claims := map[string]any{"iss": w.issuer.DID, "sub": subjectDID, "jti": fmt.Sprintf("%s#cred-%d", w.issuer.DID, w.nextID()), "nbf": now.Add(-time.Minute).Unix(), "vc": vcm}
+	iss := w.issuer
+	if o.issuer != nil {
+		iss = o.issuer
+	}
+	claims := map[string]any{"iss": iss.DID, "sub": subjectDID, "jti": fmt.Sprintf("%s#cred-%d", iss.DID, w.nextID()), "nbf": now.Add(-time.Minute).Unix(), "vc": vcm}
 	if !o.exp.IsZero() {
 		claims["exp"] = o.exp.Unix()
 	}
-	b, _ := json.Marshal(w.issuer.SignJWT(map[string]any{"alg": "ES256", "typ": "JWT", "kid": w.issuer.KID}, claims))
+	b, _ := json.Marshal(iss.SignJWT(map[string]any{"alg": "ES256", "typ": "JWT", "kid": iss.KID}, claims))
 	return b
 }
 
@@ -273,6 +287,8 @@ type entry struct {
 	retraction   bool
 	aged         bool // expired in virtual time
 	unverifiable bool // S accepted it, afterwards its credential was revoked: C cannot verify it
+	dep          *faultDomain // S accepted it, afterwards a did:web document it depends on failed (c16_faults_test.go)
+	seenUp       bool         // C had a pass during which that document resolved
 	epoch        int
 	current      bool
 	seq          int // acceptance order
@@ -334,7 +350,7 @@ func (m *model) successorExpired(e *entry) bool {
 func (m *model) live(forClient bool) []string {
 	var out []string
 	for _, e := range m.cur {
-		if e.retraction || e.aged || (forClient && e.unverifiable) {
+		if e.retraction || e.aged || (forClient && (e.unverifiable || (e.dep != nil && e.dep.down))) {
 			continue
 		}
 		out = append(out, e.jti)
@@ -663,7 +679,7 @@ func (w *world) classifyExtra(who, jti string) string {
 		return "C16/" + who + "/search-returns-retraction"
 	case e.aged:
 		return "C16/" + who + "/search-returns-expired"
-	case e.unverifiable && who == "client":
+	case who == "client" && (e.unverifiable || (e.dep != nil && (e.dep.down || !e.seenUp))):
 		return "C16/client/search-returns-unverified"
 	case e.epoch != w.m.epoch:
 		return "C16/" + who + "/search-returns-entry-of-old-seed"
@@ -691,6 +707,7 @@ func (w *world) ageOnClient() {
 // poll: one pass of C's background routine (full), or only its updater for the service (as after an activation).
 func (w *world) poll(step string, full bool) {
 	defer track("poll")()
+	w.beforeClientPass()
 	var err error
 	if full {
 		err = discovery.VerifClientRefresh(w.cm)
@@ -720,7 +737,7 @@ func (w *world) checkClientSound(step string) {
 		switch {
 		case e == nil:
 			bad = w.classifyExtra("client", f.id)
-		case e.retraction, e.aged, e.unverifiable:
+		case e.retraction, e.aged, e.cannotHaveVerified():
 			bad = w.classifyExtra("client", f.id)
 		case e.epoch != w.m.epoch && w.cPolledEpoch == w.m.epoch:
 			bad = "C16/client/search-returns-entry-of-old-seed"
@@ -944,6 +961,7 @@ func (w *world) evRace(pre bool) {
 		}})
 	var wg sync.WaitGroup
 	var pollErr error
+	w.beforeClientPass()
 	wg.Add(1)
 	go func() {
 		defer wg.Done()
@@ -1259,14 +1277,15 @@ func (w *world) evDefect(d defect) {
 
 // ---- the check ----------------------------------------------------------------------------------------------------
 
-func writeDefinitions(dir, endpointBase, svc, open string) error {
+func writeDefinitions(dir, endpointBase, svc, open, multi string) error {
 	for _, d := range []struct {
 		id      string
 		methods string
 		max     time.Duration
-	}{{svc, `"did_methods":["jwk"],`, maxValidity}, {open, "", openMaxVal}} {
+		pd      string
+	}{{svc, `"did_methods":["jwk","web"],`, maxValidity, pdJSON}, {open, "", openMaxVal, pdJSON}, {multi, `"did_methods":["jwk"],`, maxValidity, pdMultiJSON}} {
 		doc := fmt.Sprintf(`{"id":%q,%s"endpoint":%q,"presentation_max_validity":%d,"presentation_definition":%s}`,
-			d.id, d.methods, endpointBase+"/discovery/"+d.id, int(d.max.Seconds()), pdJSON)
+			d.id, d.methods, endpointBase+"/discovery/"+d.id, int(d.max.Seconds()), d.pd)
 		if err := os.WriteFile(filepath.Join(dir, d.id+".json"), []byte(doc), 0o644); err != nil {
 			return err
 		}
@@ -1295,11 +1314,16 @@ func TestCheck(t *testing.T) {
 	r.Assume("expiry is virtual: presentation_expiration is aged by SQL in the server's table and in the client's copy; the JWT exp claim itself is not in the past")
 	r.Assume("a server reset is produced by emptying the service's rows and seed in the server's database (the state of a fresh database); once per server/client pair the server node is really reinstalled on an empty data directory")
 
+	// hosted did:web documents with injectable outages: what every node's did:web resolver is built on (set again before each node starts)
+	web := &webHost{docs: map[string]*webDoc{}, orig: client.SafeHttpTransport}
+	origTransport := client.DefaultCachingTransport
+	defer func() { client.DefaultCachingTransport = origTransport }()
+
 	worlds := r.Pick(4, 8)
 	perWorld := r.Pick(8, 50) // 32 / 400 histories
 	var ws []*world
 	for i := 0; i < worlds; i++ {
-		ws = append(ws, newWorld(t, r, i))
+		ws = append(ws, newWorld(t, r, i, web))
 	}
 	phase := func(from, to int) {
 		var wg sync.WaitGroup
@@ -1330,6 +1354,14 @@ func TestCheck(t *testing.T) {
 	r.Extra("status_list_fetches_observed", hits)
 	r.Extra("server_epochs", epochs)
 	r.Extra("worlds", worlds)
+	web.mu.Lock()
+	r.Extra("did_web_documents_served", web.served)
+	r.Extra("did_web_resolutions_failed_by_injection", web.failed)
+	webFailed := web.failed
+	web.mu.Unlock()
+	if webFailed == 0 || r.Get("events_heal") == 0 {
+		r.Fatalf("no injected did:web outage was ever hit / healed: the client-side verification cases observed nothing")
+	}
 	for k, v := range tim {
 		r.Extra("wall_s_in_"+k, v.Seconds())
 	}
@@ -1341,9 +1373,25 @@ func TestCheck(t *testing.T) {
 	}
 }
 
-func newWorld(t *testing.T, r *ev.Run, id int) *world {
-	w := &world{id: id, svc: fmt.Sprintf("c16-svc-%d", id), open: fmt.Sprintf("c16-open-%d", id), t: t, r: r, m: newModel(),
-		rnd: r.Rand(fmt.Sprintf("c16-world-%d", id)), issuer: iamflow.NewHolder(), tokens: map[string]string{}}
+func (w *world) serverEnv(extra map[string]string) map[string]string {
+	env := map[string]string{"NUTS_HTTP_PUBLIC_ADDRESS": w.sAddr, "NUTS_URL": "http://" + w.sAddr, "NUTS_DISCOVERY_SERVER_IDS": w.svc + "," + w.open + "," + w.multi}
+	for k, v := range extra {
+		env[k] = v
+	}
+	return env
+}
+
+// startNode: the http engine of every starting node replaces the process-wide caching transport; the did:web resolver and
+// the status list client of the next node are built from whatever is set when it starts.
+func (w *world) startNode(o node.Options) *node.Node {
+	client.DefaultCachingTransport = w.web
+	return node.Start(w.t, o)
+}
+
+func newWorld(t *testing.T, r *ev.Run, id int, web *webHost) *world {
+	w := &world{id: id, svc: fmt.Sprintf("c16-svc-%d", id), open: fmt.Sprintf("c16-open-%d", id), multi: fmt.Sprintf("c16-multi-%d", id), t: t, r: r, m: newModel(),
+		rnd: r.Rand(fmt.Sprintf("c16-world-%d", id)), issuer: iamflow.NewHolder(), tokens: map[string]string{}, web: web,
+		openBad: map[string]string{}, multiCur: map[string]string{}, multiRejected: map[string]string{}}
 	dir, err := os.MkdirTemp("", "c16-defs-")
 	if err != nil {
 		r.Fatalf("tempdir: %v", err)
@@ -1351,14 +1399,13 @@ func newWorld(t *testing.T, r *ev.Run, id int) *world {
 	t.Cleanup(func() { os.RemoveAll(dir) })
 	sAddr := freeAddr()
 	w.sAddr = sAddr
-	if err := writeDefinitions(dir, "http://"+sAddr, w.svc, w.open); err != nil {
+	if err := writeDefinitions(dir, "http://"+sAddr, w.svc, w.open, w.multi); err != nil {
 		r.Fatalf("definitions: %v", err)
 	}
 	cfg := "discovery:\n  definitions:\n    directory: " + dir + "\n  client:\n    refresh_interval: 0s\n"
 	w.cfg = cfg
-	w.s = node.Start(t, node.Options{Config: cfg, Env: map[string]string{
-		"NUTS_HTTP_PUBLIC_ADDRESS": sAddr, "NUTS_URL": "http://" + sAddr, "NUTS_DISCOVERY_SERVER_IDS": w.svc + "," + w.open}})
-	w.c = node.Start(t, node.Options{Config: cfg})
+	w.s = w.startNode(node.Options{Config: cfg, Env: w.serverEnv(nil)})
+	w.c = w.startNode(node.Options{Config: cfg})
 	w.sdb = node.Engine[storage.Engine](w.s).GetSQLDatabase()
 	w.cdb = node.Engine[storage.Engine](w.c).GetSQLDatabase()
 	w.cm = node.Engine[*discovery.Module](w.c)
@@ -1426,6 +1473,9 @@ func (w *world) run(from, to int) {
 		var kinds []string
 		// directed openings (seeded): a reset overtaken by registrations before the client polls again; a reset with the first registrations racing the poll
 		switch {
+		case (h+w.id)%5 == 0:
+			w.unverifiedMix()
+			kinds = append(kinds, "unverified-mix")
 		case (h+w.id)%5 == 2:
 			w.resetOvertake()
 			kinds = append(kinds, "reset-overtake")
@@ -1465,6 +1515,9 @@ func (w *world) run(from, to int) {
 				}
 			case x < 69:
 				kind = "poll"
+				if len(w.healable()) > 0 && w.rnd.Intn(2) == 0 {
+					w.evHeal() // an outage ends; only a full pass validates what is already stored
+				}
 				w.poll("poll", w.rnd.Intn(3) == 0)
 				w.note("poll")
 				w.checkClientSound(fmt.Sprintf("h%d/e%d", h, e))
@@ -1482,7 +1535,14 @@ func (w *world) run(from, to int) {
 				w.evDefect(d)
 			case x < 97:
 				kind = "plant"
-				w.evPlant(w.anySubject())
+				switch w.rnd.Intn(3) {
+				case 0:
+					w.evPlant(w.anySubject())
+				case 1:
+					w.evPlantFault(w.randomPlant(true, nil))
+				default:
+					w.evPlantFault(w.randomPlant(false, nil))
+				}
 			default:
 				kind = "reset"
 				w.evReset()
@@ -1498,6 +1558,7 @@ func (w *world) run(from, to int) {
 		}
 		w.converge("end")
 		w.checkServer(fmt.Sprintf("h%d/end", h), true)
+		w.multiSweep(3)
 		r.Count("histories", 1)
 		if h == 0 && w.id < 3 {
 			r.Sample(map[string]any{"world": w.id, "history": h, "events": kinds, "live_at_end": len(w.m.live(false)), "entries_at_end": len(w.m.cur), "epoch": w.m.epoch})
@@ -1537,10 +1598,10 @@ func (w *world) resetOvertake() {
 func (w *world) evReinstall() {
 	internal := strings.TrimPrefix(w.s.Internal, "http://")
 	w.s.Stop()
-	w.s = node.Start(w.t, node.Options{Config: w.cfg, Env: map[string]string{
-		"NUTS_HTTP_PUBLIC_ADDRESS": w.sAddr, "NUTS_HTTP_INTERNAL_ADDRESS": internal, "NUTS_URL": "http://" + w.sAddr, "NUTS_DISCOVERY_SERVER_IDS": w.svc + "," + w.open}})
+	w.s = w.startNode(node.Options{Config: w.cfg, Env: w.serverEnv(map[string]string{"NUTS_HTTP_INTERNAL_ADDRESS": internal})})
 	w.sdb = node.Engine[storage.Engine](w.s).GetSQLDatabase()
 	w.m.reset()
+	w.multiCur = map[string]string{}
 	w.ctx.hadReset = true
 	w.r.Count("events_server_reinstalled", 1)
 	w.note("server reinstalled on an empty database (epoch %d)", w.m.epoch)
